@@ -9,7 +9,7 @@ Consequences when an application mixes process.collect_output() with a stream re
  (B) (audit repro) after one collect_output() a blocked reader never sees later data: it goes to the new list; at EOF
      the reader returns b'' while the data is still buffered.
 Both disappear when the list is emptied in place (proposed patch below); then whoever comes first gets the data.
-STATUS: fixed in /repo by 3acc6dd ("collect_output must empty the receive buffer in place"); prints "not reproduced" there.
+STATUS: fixed in /repo by 7a31306 ("collect_output must empty the receive buffer in place"); prints "not reproduced" there.
 Permanent clause: C19.process.SSHClientProcess._collect_output#post(buffer-list-object-is-kept)
 Run: /venv/bin/python /verif/notes/findings/c19_collect_output_duplicates.py   (no network)
 
